@@ -50,6 +50,7 @@ var enumNamePool = []string{"Kind", "Status", "Mode"}
 
 type randomGen struct {
 	baseNames []string        // per package: base name of its Go import path (nil: pkgN)
+	forceImports bool         // every file imports all earlier files
 	usedTop map[string]bool // proto package + "." + name
 	t     *simhook.Tape
 	opts  RandomOpts
@@ -68,6 +69,21 @@ func RandomSet(t *simhook.Tape, opts RandomOpts) []*descriptorpb.FileDescriptorP
 		for i := 0; i < nPkgs; i++ {
 			g.baseNames = append(g.baseNames, []string{"v1beta1", "v1", "types"}[t.Draw("rs.basename", 3)])
 		}
+	}
+	if opts.Tag == "" && t.Chance("rs.diamond", 1, 4) {
+		// two dependency packages whose import paths share their base name, and
+		// two or three sibling files of a third package that import both
+		nPkgs = 3
+		base := []string{"v1beta1", "v1", "types"}[t.Draw("rs.diamondbase", 3)]
+		g.baseNames = []string{base, base, "app"}
+		g.forceImports = true
+		nSib := 2 + t.Draw("rs.siblings", 2)
+		g.genFile(0, 0)
+		g.genFile(1, 1)
+		for i := 0; i < nSib; i++ {
+			g.genFile(2+i, 2)
+		}
+		return g.files
 	}
 	for i := 0; i < nFiles; i++ {
 		pkg := t.Draw("rs.pkgof", nPkgs)
@@ -131,7 +147,7 @@ func (g *randomGen) genFile(idx, pkg int) {
 		if g.files[j].GetSyntax() == "proto2" {
 			continue
 		}
-		if t.Chance("rs.import", 1, 2) {
+		if g.forceImports || t.Chance("rs.import", 1, 2) {
 			deps = append(deps, j)
 			fd.Dependency = append(fd.Dependency, g.files[j].GetName())
 		}
